@@ -80,6 +80,18 @@ Section C16.
                 (sf_pairs F shape h x).
   Proof. apply (sf_axis_swap_perm dom F HF). Qed.
 
+  Lemma c16_sf_flip_perm shape h ax s x : dom shape -> Forall (fun n => (0 < n)%nat) shape ->
+    Permutation (sf_pairs F shape h (fun n => x (reflect_idx shape ax (shift_idx shape s n)))) (sf_pairs F shape h x).
+  Proof. apply (sf_flip_perm dom F HF). Qed.
+
+  Lemma c16_sf_axis_perm_seq swaps : (forall i s, dom s -> dom (swap_at i s)) ->
+    forall shape h x, dom shape -> Forall (fun n => (0 < n)%nat) shape -> length h = length shape ->
+    Permutation (sf_pairs F (fold_left (fun l i => swap_at i l) swaps shape)
+                          (fold_left (fun l i => swap_at i l) swaps h)
+                          (fun n => x (fold_right (fun i m => swap_at i m) n swaps)))
+                (sf_pairs F shape h x).
+  Proof. apply (sf_axis_perm_seq dom F HF). Qed.
+
   (* the arrays returned for smoothing=None are these lists *)
   Lemma c16_unsmoothed_is_raw shape h x au nw sm wn :
     gsf_model F shape h x false au nw false sm wn = (k_list shape h, sf_list F shape x).
